@@ -72,6 +72,9 @@ SPECS = {
                     'final': 'cs_final1', 'covers': [13]},
     'wrap_conc': {'name': 'wrap_conc', 'setup': 'cs_setup2', 'threads': [('cs_fill8_wrap_t1', 'cs_r_fallback'), (W, 'cs_w_store1')],
                   'final': 'cs_final2_release', 'covers': [13, 14]},
+    # --- C08: reader against writers that complete whole writes between its steps
+    'wf_fast': {'name': 'wf_fast', 'setup': 'cs_setup_pool', 'threads': [(W, 'cs_r_load_only'), (W, 'cs_w_store_pool12')], 'covers': []},
+    'wf_full8': {'name': 'wf_full8', 'setup': 'cs_setup_pool2', 'threads': [('cs_fill8_t1', 'cs_r_load_only'), (W, 'cs_w_store_pool12')], 'covers': []},
     # --- two containers: writer of B walks the node of a reader of A which is on the fallback path
     'iso_b': {'name': 'iso_b', 'setup': 'cs_setup2', 'threads': [('cs_fill8_t1', 'cs_r_fallback'), (W, 'cs_w_store_b3')],
               'final': 'cs_final2_release', 'covers': [13, 14]},
@@ -175,3 +178,17 @@ def c19(ctx):
     r = autotrait.check(ctx)
     ctx.extra['derivations'] = r.pop('all_samples')
     ctx.add(r)
+
+
+
+@prop('C08')
+def c08(ctx):
+    import conc
+    ctx.bounds.update({'reader': 'one load (fast path; and with 8 guards held -> fallback/helping path)',
+                       'environment': 'every shared read returns any value other threads can write there (domains from 2 complete writes + helping), unconstrained across reads',
+                       'symbolic_loop_iterations_allowed': 2})
+    ctx.outside += ['first use of the crate on a thread and the generation wrap (Node::get is lock-free only: documented exception)']
+    for name in ['wf_fast', 'wf_full8']:
+        s = ctx.session('rel')
+        r = conc.run_havoc(s, SPECS[name])
+        ctx.add(tag(r, flavor='rel'))
